@@ -5,7 +5,7 @@ import random
 import numpy as np
 import pandas as pd
 
-from .core import job
+from .core import job, stable_hash
 from . import oracles as O
 from .signals import FAMILIES, make_signal
 from .jobs_pipeline import TH_PRESETS
@@ -50,8 +50,10 @@ def windows(c, n, fs, rng, df=None, r=None):
         # a window closing exactly on the closing sample of a NON-bursting cycle (threshold spans are drawn for those)
         quiet = [i for i in range(2, len(df)) if not bool(df['is_burst'].values[i])]
         if quiet:
-            iq = rng.choice(quiet)
-            yield (int(L[max(iq - 2, 0)]) + 1, int(N[iq]))
+            # not left to chance: up to six quiet cycles spread over the table, plus one drawn at random
+            step = max(1, len(quiet) // 6)
+            for iq in sorted(set(quiet[::step][:6] + [quiet[-1], rng.choice(quiet)])):
+                yield (int(L[max(iq - 2, 0)]) + 1, int(N[iq]))
     for _ in range(c['nwin']):
         a = rng.choice(low) if low and rng.random() < 0.5 else rng.randrange(0, n - 2)
         width = rng.choice([3, 40, 200, 600])
@@ -66,7 +68,8 @@ class Plots:
 
     def bound(self, tier):
         return ('corpus tables of both centrings at fs in {500, 1000}; x-limits None or %d random sample-grid windows per table '
-                '(including windows with no complete cycle and windows starting on grid points whose time*fs truncates low); '
+                '(including windows with no complete cycle and windows starting on grid points whose time*fs truncates low) plus, per table, '
+                'windows on the boundaries of a bursting cycle and windows closing exactly on the last sample of up to eight non-bursting cycles; '
                 'the four cyclepoint-kind switches; plot_only_result and interp settings' % (3 if tier == 'quick' else 10))
 
     def gen(self, tier, seed):
@@ -85,7 +88,7 @@ class Plots:
         import matplotlib.pyplot as plt
         import bycycle.plts.cyclepoints as pc
         import bycycle.plts.burst as pb
-        rng = random.Random(c['seed'] * 7 + hash((c['family'], c['centre'], c['fs'])) % 1000)
+        rng = random.Random(c['seed'] * 7 + stable_hash((c['family'], c['centre'], c['fs'])) % 1000)
         sig, df = table_for(c)
         fs = c['fs']
         n = len(sig)
